@@ -5,7 +5,11 @@ software block, `Node._start_up_actions`, `Node._shut_down_actions`, each TRANSL
 the statement language of Model/PowerProg.lean (`PStmt`).  Props/C12Prog.lean proves for every node that running the
 translated body is the model's function, so the tie is by meaning: a rewrite that keeps the meaning still checks.
 
-Strict: anything outside the fragment (a local variable, an unknown call, an unknown attribute, a loop with more than
+Also translated (round 7c): the interfaces' own `enable()` / `disable()` (WiredNetworkInterface, IPWiredNetworkInterface,
+WirelessNetworkInterface, IPWirelessNetworkInterface) into `IStmt`, WITH local variables and `super()`.
+
+Node methods may use local variables that hold a truth value (see `_seq`).
+Strict: anything outside the fragment (in a node method an unknown call, an unknown attribute, a loop with more than
 one statement, an argument to a power call) raises Unsupported, which breaks the tie visibly.
 """
 import ast
@@ -31,6 +35,10 @@ ACTIONS = {"self._start_up_actions": "startUpActions", "self._shut_down_actions"
 SVC_VERBS = ("stop", "start", "pause", "resume", "restart", "disable", "enable")
 APP_VERBS = ("run", "close", "install")
 STATE = "self.operating_state"
+# classes whose methods may be called unbound on an element of a collection: `Application.run(self.applications[a])`.
+# Not the interfaces: their enable() differs by class (the IP classes answer differently and say hello), so an unbound
+# `WiredNetworkInterface.enable(i)` is NOT `i.enable()` for the model and stays outside the fragment.
+UNBOUND_CLASSES = {"Application": "applications", "Service": "services"}
 RESETTING = "self.config.is_resetting"
 
 
@@ -96,6 +104,8 @@ def bexpr(e: ast.AST) -> str:
     if isinstance(e, ast.Constant) and isinstance(e.value, bool):
         return f"(.lit {'true' if e.value else 'false'})"
     s = _u(e)
+    if isinstance(e, ast.Name) and e.id in _LOCALS:
+        return f"(.lit {'true' if _LOCALS[e.id] else 'false'})"
     if s == RESETTING:
         return ".resetting"
     if s == STATE:
@@ -187,10 +197,14 @@ def _helper_body(e: ast.AST):
     if any(isinstance(d, ast.Name) and d.id == "property" for d in fn.decorator_list):
         raise Unsupported(f"`{name}` is a property")
     _INLINING.append(name)
+    saved = dict(_LOCALS)
+    _LOCALS.clear()          # a helper has its own scope
     try:
         return stmts(fn.body, name)
     finally:
         _INLINING.pop()
+        _LOCALS.clear()
+        _LOCALS.update(saved)
 
 
 def _loop(st: ast.For) -> str:
@@ -203,6 +217,14 @@ def _loop(st: ast.For) -> str:
     it = _u(st.iter)
     meth = b.value.func.attr
     recv = _u(b.value.func.value)
+    call_args, call_kws = list(b.value.args), list(b.value.keywords)
+    unbound_of = None
+    if isinstance(b.value.func.value, ast.Name) and b.value.func.value.id in UNBOUND_CLASSES and call_args:
+        # `Class.method(obj, …)` is `obj.method(…)` resolved at `Class` (a subclass's override is bypassed). The model's verbs ARE
+        # the base classes' methods (`Application.run` opens the application, …), so the modelled effect is the same.
+        unbound_of = UNBOUND_CLASSES[b.value.func.value.id]
+        recv = _u(call_args[0])
+        call_args = call_args[1:]
     for coll in ("network_interfaces", "services", "applications"):
         forms = {}
         if isinstance(st.target, ast.Name):
@@ -213,14 +235,16 @@ def _loop(st: ast.For) -> str:
         elif isinstance(st.target, ast.Tuple) and len(st.target.elts) == 2 and all(isinstance(x, ast.Name) for x in st.target.elts):
             forms[f"self.{coll}.items()"] = [st.target.elts[1].id, f"self.{coll}[{st.target.elts[0].id}]"]
         if it in forms and recv in forms[it]:
+            if unbound_of is not None and unbound_of != coll:
+                raise Unsupported(f"unbound call of another collection's class in `{_u(b)[:80]}`")
             if coll == "network_interfaces":
                 if meth == "apply_timestep":
                     return ".skip"      # interfaces keep no modelled clock
-                if b.value.args or b.value.keywords:
+                if call_args or call_kws:
                     raise Unsupported(f"arguments in `{_u(b)}`")
                 if meth in ("enable", "disable"):
                     return ".nicsEnable" if meth == "enable" else ".nicsDisable"
-            if b.value.args or b.value.keywords:
+            if call_args or call_kws:
                 raise Unsupported(f"arguments in `{_u(b)}`")
             if coll == "services" and meth in SVC_VERBS:
                 return f"(.svcsEach .{meth})"
@@ -295,13 +319,53 @@ def stmt(st: ast.stmt, where: str) -> str:
     raise Unsupported(f"{where}: statement `{_u(st)[:80]}`")
 
 
+# local variables of a node method (round 7c). A local holds the TRUTH VALUE of what was assigned to it (the answer of
+# `self.power_on()` / `self.power_off()`, of a helper, of `all(…)` / `any(…)` over the interfaces, or a condition evaluated at that
+# point); the translation branches on that value where it is assigned and translates the REST OF THE BLOCK once per value, with the
+# local replaced by the literal (continuation duplication: no environment is needed in the interpreter, and the order of
+# evaluation is the source's). A use outside the block of the assignment, or as anything but a truth value (an int), is refused.
+_LOCALS: dict = {}
+
+
+def _with_local(x: str, v: bool, real: List[ast.stmt], where: str) -> str:
+    missing = object()
+    old = _LOCALS.get(x, missing)
+    _LOCALS[x] = v
+    try:
+        return _seq(real, where)
+    finally:
+        if old is missing:
+            del _LOCALS[x]
+        else:
+            _LOCALS[x] = old
+
+
+def _seq(real: List[ast.stmt], where: str) -> str:
+    if not real:
+        return ".skip"
+    st = real[0]
+    if isinstance(st, ast.Assign) and len(st.targets) == 1 and isinstance(st.targets[0], ast.Name):
+        x = st.targets[0].id
+        # the test is evaluated (its calls are made) BEFORE the local changes: translate it first, under the old binding
+        k = _power_call(st.value)
+        q = None if k else _nics_quant(st.value)
+        h = None if (k or q) else _helper_body(st.value)
+        c = None if (k or q or h is not None) else bexpr(st.value)
+        a, b = _with_local(x, True, real[1:], where), _with_local(x, False, real[1:], where)
+        if k:
+            return f"(.ifCall .{k} {a} {b})"
+        if q:
+            return f"(.ifNicsQ .{q[0]} {'true' if q[1] else 'false'} .{q[2]} {a} {b})"
+        if h is not None:
+            return f"(.ifBlock {h} {a} {b})"
+        return f"(.ite {c} {a} {b})"
+    s = stmt(st, where)
+    r = _seq(real[1:], where)
+    return s if r == ".skip" else f"(.seq {s} {r})"
+
+
 def stmts(body: List[ast.stmt], where: str) -> str:
-    out = ".skip"
-    real = [s for s in body if not _is_noise(s)]
-    for st in reversed(real):
-        s = stmt(st, where)
-        out = s if out == ".skip" else f"(.seq {s} {out})"
-    return out
+    return _seq([s for s in body if not _is_noise(s)], where)
 
 
 POWER_WORDS = ("start_up_countdown", "shut_down_countdown", "start_up_duration", "shut_down_duration", "is_resetting",
@@ -361,6 +425,168 @@ def genTickPower (n : Node) : Node × Option Bool :=
 """
 
 
+# ------------------------------------------------------------------------------------------------ the interfaces' enable() / disable()
+AIR = "simulator/network/airspace.py"
+NODE_REF = "self._connected_node"
+LINK_REF = "self._connected_link"
+# (definition name, file, class, method, the class whose method `super()` reaches: None = the abstract NetworkInterface)
+IFACE_METHODS = [
+    ("wiredEnableProg", BASE, "WiredNetworkInterface", "enable", None),
+    ("wiredDisableProg", BASE, "WiredNetworkInterface", "disable", None),
+    ("ipWiredEnableProg", BASE, "IPWiredNetworkInterface", "enable", "WiredNetworkInterface"),
+    ("wirelessEnableProg", AIR, "WirelessNetworkInterface", "enable", None),
+    ("wirelessDisableProg", AIR, "WirelessNetworkInterface", "disable", None),
+    ("ipWirelessEnableProg", AIR, "IPWirelessNetworkInterface", "enable", "WirelessNetworkInterface"),
+]
+# statements without a modelled effect; one that mentions `self._connected_node.` / `self._connected_link.` still DEREFERENCES it
+IFACE_INERT_CALLS = ("_LOGGER.", "self._connected_node.sys_log.", "self._connected_link.endpoint_up", "self._connected_link.endpoint_down",
+                     "self.airspace.add_wireless_interface", "self.airspace.remove_wireless_interface",
+                     "self._connected_node.default_gateway_hello")
+
+
+class _Locals:
+    def __init__(self):
+        self.ix = {}
+
+    def of(self, name: str, create: bool) -> int:
+        if name not in self.ix:
+            if not create:
+                raise Unsupported(f"local variable `{name}` read before any assignment in the method")
+            self.ix[name] = len(self.ix)
+        return self.ix[name]
+
+
+def _is_super_call(e: ast.AST, meth: str) -> bool:
+    if isinstance(e, ast.Call) and _u(e.func) == f"super().{meth}":
+        if e.args or e.keywords:
+            raise Unsupported(f"arguments in `{_u(e)}`")
+        return True
+    return False
+
+
+def ibexpr(e: ast.AST, loc: _Locals) -> str:
+    if isinstance(e, ast.Constant) and isinstance(e.value, bool):
+        return f"(.lit {'true' if e.value else 'false'})"
+    s = _u(e)
+    if s == "self.enabled":
+        return ".enabled"
+    if s == NODE_REF:
+        return ".node"
+    if s == LINK_REF:
+        return ".link"
+    if isinstance(e, ast.Name):
+        return f"(.var {loc.of(e.id, False)})"
+    if isinstance(e, ast.UnaryOp) and isinstance(e.op, ast.Not):
+        return f"(.not {ibexpr(e.operand, loc)})"
+    if isinstance(e, ast.BoolOp):
+        k = "and" if isinstance(e.op, ast.And) else "or"
+        out = ibexpr(e.values[-1], loc)
+        for v in reversed(e.values[:-1]):
+            out = f"(.{k} {ibexpr(v, loc)} {out})"
+        return out
+    if isinstance(e, ast.Call) and _u(e.func) == "hasattr" and len(e.args) == 2 and _u(e.args[0]) == NODE_REF \
+            and isinstance(e.args[1], ast.Constant) and e.args[1].value == "default_gateway_hello":
+        return ".nodeHasHello"
+    if isinstance(e, ast.Compare) and len(e.ops) == 1:
+        l, op, r = e.left, e.ops[0], e.comparators[0]
+        if _u(r) == NODE_REF + ".operating_state":
+            l, r = r, l
+        if _u(l) == NODE_REF + ".operating_state" and isinstance(op, (ast.Eq, ast.Is, ast.NotEq, ast.IsNot)):
+            t = f"(.nodeStIs .{_member(r)})"
+            return t if isinstance(op, (ast.Eq, ast.Is)) else f"(.not {t})"
+        if _u(l) == "self.enabled" and isinstance(r, ast.Constant) and isinstance(r.value, bool) \
+                and isinstance(op, (ast.Eq, ast.Is, ast.NotEq, ast.IsNot)):
+            return ".enabled" if isinstance(op, (ast.Eq, ast.Is)) == r.value else "(.not .enabled)"
+        if isinstance(r, ast.Constant) and r.value is None and _u(l) in (NODE_REF, LINK_REF) and isinstance(op, (ast.Is, ast.IsNot, ast.Eq, ast.NotEq)):
+            t = ".node" if _u(l) == NODE_REF else ".link"
+            return f"(.not {t})" if isinstance(op, (ast.Is, ast.Eq)) else t
+    raise Unsupported(f"interface condition `{s}`")
+
+
+def _deref(st: ast.stmt) -> str:
+    """the dereferences a statement without modelled effect still makes"""
+    src = _u(st)
+    out = []
+    if NODE_REF + "." in src:
+        out.append(".useNode")
+    if LINK_REF + "." in src:
+        out.append(".useLink")
+    if not out:
+        return ".skip"
+    return out[0] if len(out) == 1 else f"(.seq {out[0]} {out[1]})"
+
+
+def istmt(st: ast.stmt, meth: str, loc: _Locals, where: str) -> str:
+    if isinstance(st, ast.Pass) or (isinstance(st, ast.Expr) and isinstance(st.value, ast.Constant)):
+        return ".skip"
+    if isinstance(st, ast.If):
+        c = ibexpr(st.test, loc)
+        return f"(.ite {c} {istmts(st.body, meth, loc, where)} {istmts(st.orelse, meth, loc, where)})"
+    if isinstance(st, ast.Return):
+        if st.value is None or (isinstance(st.value, ast.Constant) and st.value.value is None):
+            return ".retNone"
+        if _is_super_call(st.value, meth):
+            return ".retSuper"
+        if isinstance(st.value, ast.Name):
+            return f"(.retVar {loc.of(st.value.id, False)})"
+        return f"(.ret {ibexpr(st.value, loc)})"
+    if isinstance(st, ast.Assign) and len(st.targets) == 1:
+        tgt = st.targets[0]
+        if _u(tgt) == "self.enabled":
+            return f"(.setEnabled {ibexpr(st.value, loc)})"
+        if _u(tgt) == "self.pcap":          # the capture object: no modelled state, but its arguments read the node
+            return _deref(st)
+        if isinstance(tgt, ast.Name):
+            if _is_super_call(st.value, meth):
+                return f"(.superCall (some {loc.of(tgt.id, True)}))"
+            v = ibexpr(st.value, loc)
+            return f"(.assign {loc.of(tgt.id, True)} {v})"
+        raise Unsupported(f"{where}: assignment to `{_u(tgt)}`")
+    if isinstance(st, ast.Expr) and isinstance(st.value, ast.Call):
+        if _is_super_call(st.value, meth):
+            return "(.superCall none)"
+        f = _u(st.value.func)
+        if any(f.startswith(p) for p in IFACE_INERT_CALLS):
+            return _deref(st)
+        raise Unsupported(f"{where}: call `{_u(st)[:80]}`")
+    raise Unsupported(f"{where}: statement `{_u(st)[:80]}`")
+
+
+def istmts(body: List[ast.stmt], meth: str, loc: _Locals, where: str) -> str:
+    parts = [istmt(st, meth, loc, where) for st in body]      # in source order: local variables are numbered as they appear
+    parts = [x for x in parts if x != ".skip"]
+    out = ".skip"
+    for x in reversed(parts):
+        out = x if out == ".skip" else f"(.seq {x} {out})"
+    return out
+
+
+def iface_programs() -> dict:
+    out = {}
+    for name, path, cls, meth, sup in IFACE_METHODS:
+        c = class_def(parse(path), cls)
+        fn = find_method(c, meth)
+        if fn.args.args[1:] or fn.args.vararg or fn.args.kwarg or fn.args.kwonlyargs:
+            raise Unsupported(f"{cls}.{meth} takes arguments")
+        if sup is not None:
+            # `super()` reaches the first base that defines the method: it must be the first base
+            if not c.bases or _u(c.bases[0]) != sup:
+                raise Unsupported(f"{cls}: first base is `{_u(c.bases[0]) if c.bases else None}`, expected `{sup}`")
+        out[name] = istmts(fn.body, meth, _Locals(), f"{cls}.{meth}")
+    return out
+
+
+IFACE_RUNNERS = """
+/-! the interfaces' translated bodies as functions; `super()` bound to the translated body of the class it reaches -/
+def genWiredEnable (c : IfCtx) : IOut := runI absIface wiredEnableProg c
+def genWiredDisable (c : IfCtx) : IOut := runI absIface wiredDisableProg c
+def genIpWiredEnable (c : IfCtx) : IOut := runI genWiredEnable ipWiredEnableProg c
+def genWirelessEnable (c : IfCtx) : IOut := runI absIface wirelessEnableProg c
+def genWirelessDisable (c : IfCtx) : IOut := runI absIface wirelessDisableProg c
+def genIpWirelessEnable (c : IfCtx) : IOut := runI genWirelessEnable ipWirelessEnableProg c
+"""
+
+
 def emit() -> str:
     progs = programs()
     lines = ["import PrimaiteModel.Model.PowerProg", "namespace Primaite.Gen.PowerProg", "open Primaite.Power", ""]
@@ -371,6 +597,11 @@ def emit() -> str:
         lines.append(f"/-- `{doc[k]}`, translated statement by statement -/")
         lines.append(f"def {k} : PStmt :=\n  {v}")
     lines.append(RUNNERS)
+    for k, v in iface_programs().items():
+        c, m = next((c, m) for n, _, c, m, _ in IFACE_METHODS if n == k)
+        lines.append(f"/-- `{c}.{m}`, translated statement by statement -/")
+        lines.append(f"def {k} : IStmt :=\n  {v}")
+    lines.append(IFACE_RUNNERS)
     lines.append("end Primaite.Gen.PowerProg")
     return "\n".join(lines) + "\n"
 
